@@ -61,7 +61,7 @@ def run(prop, tier, seed, replay=None):
     res, rc = core.run_monitor(exe, common + ["--case-timeout", "20"], env, out, timeout=7200 if tier == "thorough" else 1200)
     # hangs: re-run each once alone with a generous watchdog before believing it
     confirmed = []
-    for (case, secs, desc) in res.hangs[:20]:
+    for (case, secs, desc) in res.hangs[:4]:
         r2, _ = core.run_monitor(exe, ["--bases", bases, "--n", str(n), "--seed", str(seed), "--only-case", str(case), "--case-timeout", "60"],
                                  env, os.path.join(chk.workdir, "hang%d" % case), timeout=300)
         if r2.hangs:
@@ -70,9 +70,11 @@ def run(prop, tier, seed, replay=None):
             chk.inconclusive_because("watchdog fired once for case %d but not on re-run" % case)
     res.hangs = confirmed
     chk.absorb(res, replay_args=dict(monitor="loadmon"))
-    dig = {"asan": read_digests(out)}
+    dig = {"asan": read_digests(out), "pat": {}, "zero": {}}
+    # a confirmed hang is a violation already; the determinism legs would only sit on the same inputs for an hour
+    skip_digest_legs = bool(confirmed)
     # determinism across builds that pre-fill automatic variables differently
-    for flav, e in (("pat", exe_pat), ("zero", exe_zero)):
+    for flav, e in (() if skip_digest_legs else (("pat", exe_pat), ("zero", exe_zero))):
         o = os.path.join(chk.workdir, flav)
         r2, rc2 = core.run_monitor(e, common + ["--digest-only", "--case-timeout", "60"], build.san_env(flav), o,
                                    timeout=7200 if tier == "thorough" else 1200)
@@ -88,8 +90,12 @@ def run(prop, tier, seed, replay=None):
     o2 = os.path.join(chk.workdir, "asan-fill00")
     env2 = build.san_env("asan")
     env2["ASAN_OPTIONS"] += ":malloc_fill_byte=0:max_malloc_fill_size=268435456"
-    r3, rc3 = core.run_monitor(exe, common + ["--digest-only", "--case-timeout", "60"], env2, o2, timeout=7200 if tier == "thorough" else 1200)
-    dig["asan00"] = read_digests(o2)
+    if skip_digest_legs:
+        r3, rc3 = core.Results(), 0
+        dig["asan00"] = {}
+    else:
+        r3, rc3 = core.run_monitor(exe, common + ["--digest-only", "--case-timeout", "60"], env2, o2, timeout=7200 if tier == "thorough" else 1200)
+        dig["asan00"] = read_digests(o2)
     heap_compared = heap_diff = 0
     for case, (h, ok, cls, label) in dig["asan"].items():
         z = dig["asan00"].get(case)
